@@ -177,6 +177,18 @@ def serve (P : Pipeline m J Schema Feat Cost Ctx Doc Resp) (S : SchemaOps Def Sc
     | none => pure .notModelled
     | some msg => Served.ws <$> serveWS P S a k didInit ctx msg
 
+/-- A history: wire messages served one after the other by the same API value, each with the
+    context (principal, hence features) of its own request / connection. The model keeps no state
+    between them — whatever `ServeGraphQL` / `HandleStart` may remember from earlier requests must
+    not be observable; the harness checks exactly that on histories. -/
+def serveAll (P : Pipeline m J Schema Feat Cost Ctx Doc Resp) (S : SchemaOps Def Schema)
+    (a : Api Def Feat Cost Ctx) (c : Codec J) (didInit : Bool) : List (Ctx × Wire) → m (List (Served Resp))
+  | [] => pure []
+  | (ctx, w) :: rest => do
+    let o ← serve P S a c ctx didInit w
+    let os ← serveAll P S a c didInit rest
+    pure (o :: os)
+
 /-- How transport `t` wraps the response of the shared pipeline. -/
 def deliver (t : Transport) (x : Extras) (resp : Resp) : Served Resp :=
   match t with
